@@ -102,6 +102,13 @@ func (w *World) performDNS(o *op, now time.Duration) {
 		w.stat("fault.dns." + base + ".ctxdone")
 	case base == "names":
 		res.names = dnsNames(o.key, o.nth, atoi(args[0]))
+	case base == "dupnames":
+		// a resolver may list one name twice (two PTR records, or a CNAME and its target)
+		nn := dnsNames(o.key, o.nth, atoi(args[0]))
+		res.names = append([]string{nn[0]}, nn...)
+		if len(nn) > 1 {
+			res.names = append(res.names, nn[len(nn)-1])
+		}
 	case base == "slow":
 		res.names = dnsNames(o.key, o.nth, atoi(args[1]))
 		w.stat("fault.dns.slow")
